@@ -68,11 +68,31 @@ VPerc(e) ==
      ELSE IF ~e.fracInCell THEN "fractional-sites-not-inside-cell"
      ELSE "ok"
 
+(* beyond C10: optimal_n_paths.  e.paths: list of site lists; e.n, e.num/e.den = min_diff as a fraction *)
+Shared(p, q) == Cardinality({i \in DOMAIN p : \E j \in DOMAIN q : q[j] = p[i]})
+(* calculate_path_difference: 1 - (#nodes of the shorter path that occur in the longer) / len(shorter) >= num/den *)
+FarEnough(p, q, num, den) == LET sh == IF Len(p) <= Len(q) THEN p ELSE q
+                                 lg == IF Len(p) <= Len(q) THEN q ELSE p
+                             IN (Len(sh) - Shared(sh, lg)) * den >= num * Len(sh)
+VNPaths(e) ==
+  LET E == e.E  mv == MovesOf(e)  s == V3(e.start)  t == V3(e.stop)
+      P == [k \in DOMAIN e.paths |-> [i \in DOMAIN e.paths[k] |-> V3(e.paths[k][i])]]
+      cost(k) == WalkCost("sum", E, P[k], 1)
+  IN IF e.raised THEN (IF MinCost(E, mv, "sum", s, t) = Inf THEN "ok" ELSE "no-path-reported-but-one-exists")
+     ELSE IF Len(P) = 0 \/ Len(P) > e.n THEN "npaths-count"
+     ELSE IF \E k \in DOMAIN P : Len(P[k]) = 0 \/ P[k][1] # s \/ P[k][Len(P[k])] # t \/ ~ValidWalk(E, mv, P[k]) THEN "npaths-not-a-valid-path"
+     ELSE IF cost(1) # MinCost(E, mv, "sum", s, t) THEN "npaths-first-not-optimal"
+     ELSE IF \E k \in 2..Len(P) : \E j \in 1..(k - 1) : ~FarEnough(P[k], P[j], e.num, e.den) THEN "npaths-too-similar"
+     ELSE IF \E k \in 2..(Len(P) - 1) : cost(k) > cost(k + 1) THEN "npaths-not-in-order-of-cost"
+     ELSE IF \E k \in 2..Len(P) : cost(k) < cost(1) THEN "npaths-cheaper-than-optimal"
+     ELSE "ok"
+
 Verdict(e) == CASE e.act = "Volume" -> VVolume(e)
                 [] e.act = "RoundTrip" -> VRoundTrip(e)
                 [] e.act = "FreeEnergy" -> VFree(e)
                 [] e.act = "Path" -> VPath(e)
                 [] e.act = "Percolate" -> VPerc(e)
+                [] e.act = "NPaths" -> VNPaths(e)
                 [] OTHER -> "unknown-action"
 Init == l = 1
 TStep == /\ l <= Len(Log)
